@@ -580,3 +580,20 @@ add("nan-incumbent-never-displaced", F, ["C04", "C08", "C17"], "dfols/model.py",
     "        if allow_kopt_update and self.objval[k] < self.objopt():\n", "NAN_HOLDER")
 add("s-nan-incumbent-test-first", S, ["C04", "C08", "C17"], "dfols/model.py", "        if allow_kopt_update and (self.objval[k] < self.objopt() or np.isnan(self.objopt())):\n",
     "        if allow_kopt_update and (np.isnan(self.objopt()) or self.objval[k] < self.objopt()):\n")
+# C07-19b: exits handed on by the Controller methods
+add("exit-of-geometry-step-dropped-by-inverted-test", F, ["C07"], "dfols/controller.py",
+    "            exit_info = self.geometry_step(knew, adelt, number_of_samples, params)\n\n            if exit_info is not None:\n                return exit_info\n\n        return None",
+    "            exit_info = self.geometry_step(knew, adelt, number_of_samples, params)\n\n            if exit_info is None:\n                return exit_info\n\n        return None", "C07-19b")
+add("s-exit-of-geometry-step-guard-clause", S, ["C07", "C04", "C10"], "dfols/controller.py",
+    "            exit_info = self.geometry_step(knew, adelt, number_of_samples, params)\n\n            if exit_info is not None:\n                return exit_info\n\n        return None",
+    "            exit_info = self.geometry_step(knew, adelt, number_of_samples, params)\n\n            if exit_info is None:\n                continue\n            return exit_info\n\n        return None")
+# C02-6b: the nsamples callback is asked the documented question
+add("nsamples-iteration-and-run-swapped", F, ["C02"], "dfols/solver.py", "max(nsamples(rhobeg, rhobeg, 0, nruns_so_far), 1)", "max(nsamples(rhobeg, rhobeg, nruns_so_far, 0), 1)", "C02-6b")
+add("nsamples-delta-and-rho-swapped", F, ["C02"], "dfols/solver.py", "max(nsamples(control.delta, control.rho, 0, nruns_so_far), 1)", "max(nsamples(control.rho, control.delta, 0, nruns_so_far), 1)", "C02-6b")
+# C07-5c / C07-5d: validators of the parameter table
+add("range-validator-or-for-and", F, ["C07"], "dfols/params.py", "    else:  # is integer\n        return (lower is None or val >= lower) and (upper is None or val <= upper)\n\n\ndef check_float",
+    "    else:  # is integer\n        return (lower is None or val >= lower) or (upper is None or val <= upper)\n\n\ndef check_float", "C07-5c")
+add("s-range-validator-operands-swapped", S, ["C07"], "dfols/params.py", "    else:  # is integer\n        return (lower is None or val >= lower) and (upper is None or val <= upper)\n\n\ndef check_float",
+    "    else:  # is integer\n        return (upper is None or upper >= val) and (lower is None or lower <= val)\n\n\ndef check_float")
+add("failing-parameter-not-recorded", F, ["C07"], "dfols/params.py", "            if not self.check_param(key, self.params[key], npt):\n                bad_keys.append(key)",
+    "            if not self.check_param(key, self.params[key], npt):\n                pass", "C07-5d")
